@@ -42,8 +42,9 @@ pub fn enc_words(ws: &[Word<'_>]) -> String {
     ws.iter().map(enc_word).collect::<Vec<_>>().join(",")
 }
 
+/// `N;line,line,…` (the count distinguishes `[]` from `[""]`)
 pub fn enc_lines<S: AsRef<str>>(ls: &[S]) -> String {
-    ls.iter().map(|l| enc_text(l.as_ref())).collect::<Vec<_>>().join(",")
+    format!("{};{}", ls.len(), ls.iter().map(|l| enc_text(l.as_ref())).collect::<Vec<_>>().join(","))
 }
 
 /// lines with their Cow variant and, for borrowed lines inside `text`, the byte offset
